@@ -240,6 +240,15 @@ mut("C06-bit-iteration-stops-at-last-bit", "C06", "bit-iteration", ("src/board/b
 mut("C06-bit-iteration-clears-before-reading", "C06", "bit-iteration", ("src/board/bitboard.rs", "            let idx = mask.trailing_zeros() as u8;\n            squares.push(Square::from(idx));\n            mask &= mask - 1;", "            mask &= mask - 1;\n            let idx = mask.trailing_zeros() as u8;\n            squares.push(Square::from(idx));"))
 mut("C06-bit-iteration-skips-h8", "C06", "bit-iteration", ("src/board/bitboard.rs", "            squares.push(Square::from(idx));\n            mask &= mask - 1;", "            if idx < 63 {\n                squares.push(Square::from(idx));\n            }\n            mask &= mask - 1;"))
 mut("R-C01-bit-loop-start-dest-swapped", "C01", "generators", ("src/board/piece.rs", "        moveset.push(Ply::new(start, dest, piece));", "        moveset.push(Ply::new(dest, start, piece));"), base=R + "R12-refactor3.diff")
+# ---- on the sixth wave: bit iterators, rights indexed by kind, merged keyword index, const direction table
+BB = "src/board/bitboard.rs"
+mut("R-C06-bit-iterator-clears-before-reading", "C06", "bit-iterator", (BB, "        let idx = self.remaining.trailing_zeros() as u8;\n        self.remaining &= self.remaining - 1;", "        self.remaining &= self.remaining - 1;\n        let idx = self.remaining.trailing_zeros() as u8;"), base=R + "R16-refactor4.diff")
+mut("R-C01-attackers-loop-over-all-pieces", "C01", "get_attacked_squares", (B, "        for square in attacking_pieces {", "        for square in self.bitboards.all_pieces {"), base=R + "R15-refactor3.diff")
+mut("R-C01-own-pieces-loop-black-reads-white", "C01", "square-loop", (B, "            Color::Black => self.bitboards.black_pieces,\n        };\n\n        for square in own_pieces {", "            Color::Black => self.bitboards.white_pieces,\n        };\n\n        for square in own_pieces {"), base=R + "R15-refactor3.diff")
+mut("R-C03-index-mut-kingside-selects-queenside", "C03", "revocation-table", ("src/board/ply/castling.rs", "            CastlingKind::WhiteKingside => &mut self.white_kingside,", "            CastlingKind::WhiteKingside => &mut self.white_queenside,"), base=R + "R15-refactor2.diff")
+mut("R-C03-rook-corner-h1-is-queenside", "C03", "revocation-table", (B, "            (Color::White, Square { rank: 0, file: 7 }) => Some(CastlingKind::WhiteKingside),", "            (Color::White, Square { rank: 0, file: 7 }) => Some(CastlingKind::WhiteQueenside),"), base=R + "R15-refactor2.diff")
+mut("R-C08-merged-keyword-index-fen-moves-at-6", "C08", "fen-moves-from-8", (UC, "                (PositionKind::Fen { fen }, FEN_FIELDS + 1)", "                (PositionKind::Fen { fen }, FEN_FIELDS)"), base=R + "R15-refactor6.diff")
+mut("R-C01-direction-table-southeast-is-southwest", "C01", "unit-steps", ("src/board/square.rs", "    Delta::new(-1, 1),  // SouthEast", "    Delta::new(-1, -1),  // SouthEast"), base=R + "R15-refactor5.diff")
 # ---- on the fifth wave: castling moves produced by a loop over the two wings (R12-3)
 K12 = "src/board/piece/king.rs"
 mut("R-C01-castle-loop-queenside-file-b", "C01", "castle-move", (K12, "const QUEENSIDE_DEST_FILE: u8 = 2; // c-file", "const QUEENSIDE_DEST_FILE: u8 = 1; // c-file"), base=R + "R12-refactor3.diff")
